@@ -181,6 +181,12 @@ func ruleInvalidNaNPairing(w *World, r *RuleResult) {
 			key := fmt.Sprintf("%s | NaN result #%d carries an invalid-class flag", name, i+1)
 			before := seenBefore(c, raise(invalid)) || raise(invalid)(c) // a helper may store NaN and raise in one call
 			after, _ := mustPassFrom(c, raise(invalid), errExempt)
+			if !before && !after && w.underSystemTest(c.Block(), 0) {
+				// the value of an operation refused for an exponent outside the package limits: the Condition
+				// carries the System* flag that was just tested, which goError always turns into an error
+				r.ok(key, w.instrPos(c), "stored only where a System* flag was found set: the operation fails with 'exponent out of range' (C03.R1)", true)
+				continue
+			}
 			if !before && !after && w.isCondTransformer(f) && !w.addressTaken(f) {
 				// the condition is the caller's: every call site passes one of the class
 				sites := w.allCallsTo(name)
